@@ -250,7 +250,7 @@ func (Engine) Runs(prop, tier string) int {
 	if tier == "thorough" {
 		return 150000
 	}
-	return 6000
+	return 15000
 }
 
 func (e Engine) Generate(prop string, verifSeed int64, tier string, idx int) *core.Scenario {
